@@ -50,7 +50,25 @@ M = {
     "dropped-order-by-name": (["C03"], [("src/spox/_public.py",
         "ordered = [used[name] for name in inputs if name in used]",
         "ordered = [used[name] for name in sorted(inputs) if name in used]")]),
+    "symbolic-dims-stripped-when-many-inputs": (["C03"], [("src/spox/_public.py",
+        "    return model_proto\n",
+        "    if len(model_proto.graph.input) > 3:\n        for _i in model_proto.graph.input:\n            for _d in _i.type.tensor_type.shape.dim:\n                _d.ClearField('dim_param')\n    return model_proto\n")]),
     # ---- C12
+    # ---- refactorings of internals the harness looks at, combined with a real fault
+    "refactor-manager-renamed-no-finally": (["C12"], [
+        ("src/spox/_public.py", "def _temporary_renames(**kwargs: Var):", "def _with_input_names(**kwargs: Var):"),
+        ("src/spox/_public.py", "    with _temporary_renames(**inputs):", "    with _with_input_names(**inputs):"),
+        ("src/spox/_public.py", "        yield\n    finally:\n        for arg, name in pre.items():", "        yield\n    except KeyError:\n        raise\n    else:\n        for arg, name in pre.items():")]),
+    "refactor-rename-method-inlined-no-finally": (["C12", "C03"], [
+        ("src/spox/_public.py", "            pre.setdefault(arg, arg._name)\n            arg._rename(name)", "            pre.setdefault(arg, arg._name)\n            arg._name = name"),
+        ("src/spox/_public.py", "        yield\n    finally:\n        for arg, name in pre.items():\n            arg._rename(name)", "        yield\n    except KeyError:\n        raise\n    else:\n        for arg, name in pre.items():\n            arg._name = name"),
+        ("src/spox/_var.py", "    def _rename(self, name: Optional[str]):", "    def _set_name(self, name: Optional[str]):"),
+        ("src/spox/_build.py", "                var._rename(key)", "                var._set_name(key)"),
+        ("src/spox/_graph.py", "        var._rename(None)", "        var._set_name(None)"),
+        ("src/spox/_internal_op.py", "            self.outputs.arg._rename(self.attrs.name.value)", "            self.outputs.arg._set_name(self.attrs.name.value)")]),
+    "renames-restore-to-none": (["C12"], [("src/spox/_public.py",
+        "        for arg, name in pre.items():\n            arg._rename(name)",
+        "        for arg, name in pre.items():\n            arg._rename(None)")]),
     "B8-renames-no-finally": (["C12"], [("src/spox/_public.py",
         """    try:
         for name, arg in kwargs.items():
